@@ -2,7 +2,8 @@
 M-Store: executable model of crates/cache/src/lib.rs (`Store`).
 
 Modelled line by line: `open_with_lock` (manifest parse, schema/key test, `on_disk_current`),
-`entry`, `load`/`load_diagnostics` (`read_blob`: magic + version header), `write_blob`
+`entry`, `load`/`load_diagnostics` (`read_blob`: content-hash test with removal of a damaged file,
+magic + version header), `write_blob`
 (content addressed, "exists ⇒ reuse"), `put`, `set_diagnostics`, `keep`, `invalidate`,
 `set_dependents`, `set_tests`, `save` (skip-write shortcut, manifest replace, `gc`), and the API as a
 state machine (`Op`, `step`, `run`). The second half is the abstract specification of C29
@@ -80,11 +81,17 @@ def findBlob (bs : List (String × String)) (name : String) : Option String :=
   | [] => none
   | (n, d) :: rest => if n = name then some d else findBlob rest name
 
-/-- `read_blob`: file present, header matches, return payload. -/
-def readBlob (c : Consts) (d : Disk) (name : String) : Option String :=
+/-- `read_blob`: file present; its bytes hash to its name (in the model a blob's name *is* its
+    data, so: `data = name`), otherwise the file is removed and the read is a miss; header matches;
+    return payload. Returns the disk too, because of the `remove_file`. -/
+def readBlob (c : Consts) (d : Disk) (name : String) : Disk × Option String :=
   match findBlob d.blobs name with
-  | none => none
-  | some data => if data.startsWith c.header then some (data.drop c.header.length).toString else none
+  | none => (d, none)
+  | some data =>
+    if data ≠ name then
+      ({ d with blobs := d.blobs.filter (fun b => b.1 ≠ name) }, none)
+    else if data.startsWith c.header then (d, some (data.drop c.header.length).toString)
+    else (d, none)
 
 /-- `write_blob`: `if !path.exists() { atomic_write }`. -/
 def writeBlob (c : Consts) (d : Disk) (payload : String) : Disk × String :=
@@ -104,14 +111,14 @@ def openStore (c : Consts) (d : Disk) (key : String) : Mem :=
 
 def entry (m : Mem) (p : String) : Option Entry := lookup m.files p
 
-def load (c : Consts) (d : Disk) (e : Entry) : Option String :=
+def load (c : Consts) (d : Disk) (e : Entry) : Disk × Option String :=
   match e.fragment with
-  | none => none
+  | none => (d, none)
   | some n => readBlob c d n
 
-def loadDiagnostics (c : Consts) (d : Disk) (e : Entry) : Option String :=
+def loadDiagnostics (c : Consts) (d : Disk) (e : Entry) : Disk × Option String :=
   match e.diagnostics with
-  | none => none
+  | none => (d, none)
   | some n => readBlob c d n
 
 def put (c : Consts) (d : Disk) (m : Mem) (p h : String) (blob : Option String) : Disk × Mem :=
@@ -181,6 +188,10 @@ inductive Op where
   | setDependents (p : String) (ds : List String)
   | setTests (p : String) (ts : List String)
   | save
+  /-- `entry(p).and_then(load)`: a read, but `read_blob` may remove a damaged file -/
+  | load (p : String)
+  /-- `entry(p).and_then(load_diagnostics)` -/
+  | loadDiagnostics (p : String)
 deriving DecidableEq, Repr, Inhabited
 
 abbrev State := Disk × Option Mem
@@ -199,6 +210,14 @@ def step (c : Consts) (s : State) (o : Op) : State :=
   | .setDependents p ds, some m => (s.1, some (setDependents m p ds))
   | .setTests p ts, some m => (s.1, some (setTests m p ts))
   | .save, some m => let r := save c s.1 m; (r.1, some r.2)
+  | .load p, some m =>
+    match entry m p with
+    | none => s
+    | some e => ((load c s.1 e).1, some m)
+  | .loadDiagnostics p, some m =>
+    match entry m p with
+    | none => s
+    | some e => ((loadDiagnostics c s.1 e).1, some m)
   | _, none => s
 
 def run (c : Consts) (s : State) (ops : List Op) : State := ops.foldl (step c) s
@@ -275,6 +294,8 @@ def astep (a : AState) (o : Op) : AState :=
     { a with sess := some { s with next := s.next.modify p (fun e => { e with tests := ts }) } }
   | .save, some s =>
     { saved := some (s.key, s.next), sess := some { s with prev := s.next, next := AbsFiles.empty } }
+  | .load _, some _ => a             -- reads do not change the abstract state
+  | .loadDiagnostics _, some _ => a
   | _, none => a
 
 def arun (a : AState) (ops : List Op) : AState := ops.foldl astep a
@@ -283,7 +304,7 @@ def arun (a : AState) (ops : List Op) : AState := ops.foldl astep a
 
 def absEntry (c : Consts) (d : Disk) (e : Entry) : AbsEntry :=
   { hash := e.hash, dependents := e.dependents, tests := e.tests,
-    fragment := load c d e, diagnostics := loadDiagnostics c d e }
+    fragment := (load c d e).2, diagnostics := (loadDiagnostics c d e).2 }
 
 def absFiles (c : Consts) (d : Disk) (fs : Files) : AbsFiles :=
   fun p => (lookup fs p).map (absEntry c d)
